@@ -16,6 +16,7 @@ EXPLANATION = ("Values and uncertainties of every operand are solver variables. 
 ASSUMPTIONS = unitkit.UNITS_STUB_TEXT + [
     "np.linspace/np.logspace/np.round/np.floor/np.ceil on proxies are modelled in symx (affine interpolation, ToInt-based rounding)",
     "arrays are 2-element object arrays of proxies",
+    "division assumes a non-zero divisor on that path (the unchanged library divides by the value in ** of an uncertain quantity and by interval ends in /; a zero there is a ZeroDivisionError on every tree and outside the property)",
 ]
 OUTSIDE = ['sharing that a caller sets up explicitly by passing one Magnitude/BaseUnits object to two Quantity constructors', 'the Python type (float vs Decimal) of an unchanged value']
 BOUNDS = {'quick': 'operator list x operand-unit pairs below, one in-place mutation round in each direction', 'thorough': 'same with more unit pairs'}
